@@ -21,7 +21,7 @@ class Sublayout(PipelineBase):
         isigs=[]
         for j in range(ns):
             lab=[F0,F1][run.pick(2,'ilab%d'%j)]
-            mb=z3.BitVec('imb_%d'%j,8); run.solver.add(z3.ULE(mb,3))
+            mb=z3.BitVec('imb_%d'%j,8); run.add(z3.ULE(mb,3))
             isigs.append(SigD(lab,mb,z3.Bool('iin_%d'%j),z3.Bool('iov_%d'%j)))
         inner_expired=bool(run.pick(2,'inner_expired'))
         OUT=self.outer_name
@@ -34,7 +34,7 @@ class Sublayout(PipelineBase):
             isteps.append(StepD(nm,1,[G]))
             ld=LinkD(nm,{'m%d'%i:[z3.BitVec('im_%d'%i,8)]},{'p%d'%i:[z3.BitVec('ip_%d'%i,8)]},return_value=i+3,command=['cmd%d'%i])
             present=bool(run.pick(2,'ilink%d'%i))
-            sd=SigD(G,z3.BitVec('lmb_%d'%i,8),z3.Bool('lin_%d'%i),z3.Bool('lov_%d'%i)); run.solver.add(z3.ULE(tbv(sd.made_by),3))
+            sd=SigD(G,z3.BitVec('lmb_%d'%i,8),z3.Bool('lin_%d'%i),z3.Bool('lov_%d'%i)); run.add(z3.ULE(tbv(sd.made_by),3))
             if present: dirs[sub].append(FileD(nm,G,BlockD('link',ld,[sd])))
             if decoys: dirs[() if decoys==1 else sib].append(FileD(nm,G,BlockD('link',LinkD(nm,{'decoy':[9]},{'decoy':[9]}),[SigD(G,G)])))
             ilinks.append((ld,sd,present))
